@@ -142,12 +142,12 @@ PROPS = {
         explanation='Verus (unbounded): every arithmetic operation, assert!, expect, index and division in parameter resolution (calc_num_threads, calc_chunk_size, div_ceil, find_chunk_size, min_chunk_size, lag/fibonacci) and in the Runner is safe for all inputs; chunk >= 1, threads >= 1; the spawn loops terminate. Kani (bounded): kernels agree with the parameter-free sequential oracle for the worker counts / chunk sizes of the shapes.',
     ),
     'C16': dict(
-        level='proof', verus_units=[],
+        level='proof', verus_units=['core'],
         kani=True,
         kani_select=dict(quick=r'^k_lazy_', thorough=r'^k_lazy_'),
-        trusted_base=[STUBS, MODEL],
+        trusted_base=[STUBS, MODEL, A64],
         assumptions=['parametricity in the item type', '5 of the 8 eager sites are observed over an EMPTY source (the eager kernels pull once and find nothing): enough to observe that the source was touched at construction time'],
-        explanation='Kani (loop-free => complete per transformation function): for each of the 8 iterator types x {map, filter, flat_map, filter_map, num_threads, chunk_size} and for Iterator::par(): after the call no user closure has run, no element was pulled, the source iterator was not advanced. The eager sites fail this with a concrete trace and are recorded as known findings.',
+        explanation='Verus (unbounded): with_num_threads / with_chunk_size replace exactly one field (the parameters in effect at the terminal call are the last ones set). Kani (loop-free => complete per transformation function): for each of the 8 iterator types x {map, filter, flat_map, filter_map, num_threads, chunk_size} and for Iterator::par(): after the call no user closure has run, no element was pulled, the source iterator was not advanced. The eager sites fail this with a concrete trace and are recorded as known findings.',
     ),
 }
 
